@@ -761,9 +761,13 @@ def _c15() -> List[Obl]:
     for sz, tier, txt in (("small", "quick", "CodesStats<3,4,3,3,3>"), ("dflt", "thorough", "CodesStats<10,20,10,10,10> (default)")):
         for h, fns in (("update", ["CodesStats::update", "CodesStats::update_many"]), ("merge", ["CodesStats::add", "AddAssign", "Add", "Sum"]),
                        ("best", ["CodesStats::best_code"]), ("default", ["CodesStats::default"])):
+            if sz == "dflt" and h == "update":
+                continue    # exceeds one hour of CBMC time (60 tracked codes, 20 Golomb moduli): native obligation c15.default_instance.update_exact instead
             out.append(Obl(id=f"c15.{h}.{sz}", prop="C15", engine="kani", target=f"obl_c15::{sz}_{h}", tier=tier, fns=[f"{f} on {txt}" for f in fns],
                            note="value < 2^40, multiplicity 1, previous totals < 2^40 (the property's no-overflow restriction)" if h == "update" else ""))
         for g in ("0", "77", "big"):
+            if sz == "dflt" and g == "big":
+                continue    # same: exceeds the time limit
             out.append(Obl(id=f"c15.update_many.{g}.{sz}", prop="C15", engine="kani", target=f"obl_c15::{sz}_update_many_{g}", tier=tier, kind="bounded",
                            bound="value fixed to a grid point (0, 77, 2^33+12345); multiplicity symbolic < 2^20", fns=[f"CodesStats::update_many on {txt}"]))
     for t, b in (("update_exact", "26 values x 4 multiplicities: every tracked total of the default instance against an independent recomputation with Codes::len"),
